@@ -10,8 +10,8 @@ _families = [l.strip() for l in open(os.path.join(os.path.dirname(os.path.abspat
 
 PLAN = {
     "level": "fault_enumeration",
-    "quick": [replays("C04"), replays("C04", flavour="plain"), tape("C04", 600, size=500), tape("C04", 4500, size=500, flavour="plain", seed_offset=500)],
-    "thorough": [replays("C04"), replays("C04", flavour="plain"), tape("C04", 6000, size=500), tape("C04", 64000, size=500, flavour="plain", seed_offset=500)],
+    "quick": [replays("C04"), replays("C04", flavour="plain"), tape("C04", 600, size=500, case_timeout=900), tape("C04", 4500, size=500, flavour="plain", seed_offset=500, case_timeout=900)],
+    "thorough": [replays("C04"), replays("C04", flavour="plain"), tape("C04", 6000, size=500, case_timeout=900), tape("C04", 64000, size=500, flavour="plain", seed_offset=500, case_timeout=900)],
     # a family with zero hits is reported as GENERATOR-HEALTH (the floor is far below one case); the evidence also carries
     # x_family_validations with an entry, possibly 0, for every family of the catalogue
     "class_floors": dict([("fault:" + f, 1e-9) for f in _families] + [
